@@ -361,6 +361,12 @@ def targeted_ops(rng, topo, flavour):
         out.append(('bad-kw-position', {'op': 'set_properties', 'elem': el, 'kw': {'details': 'changed-' + g.fresh('d'), 'nosuchprop': 1}}))
         out.append(('bad-kw-position', {'op': 'set_properties', 'elem': el, 'kw': {'nosuchprop': 1, 'details': 'changed-' + g.fresh('d')}}))
         out.append(('bad-kw-position', {'op': 'set_properties', 'elem': el, 'kw': {'details': 'changed-' + g.fresh('d'), 'boot_script': 'x' * 3000}}))
+        # a bulk update that clears one property (None) and carries a bad one, either order: whatever None means to the library,
+        # the rejected call leaves the property as it was
+        keep = 'keep-' + g.fresh('d')
+        for kwv in ({'details': None, 'nosuchprop': 1}, {'nosuchprop': 1, 'details': None}, {'details': None, 'labels': {'vlan': '70000'}}):
+            out.append(('bad-kw-position', {'op': 'set_properties', 'elem': el, 'kw': kwv,
+                                            'pre_ops': [{'op': 'set_property', 'elem': el, 'pname': 'details', 'val': keep}]}))
     return out
 
 
